@@ -17,7 +17,11 @@ FailedInvs(s) == (IF ObsSupply(s) THEN {} ELSE {"SupplyMatchesBalances"}) \cup (
 (* transition facts on OBSERVED pre/post states *)
 FailedSteps(pre, cur) ==
   (IF cur.state.seqL1 \in {pre.seqL1, pre.seqL1 + 1} THEN {} ELSE {"SeqL1Step"})
-  \cup (IF cur.state.seqL2 \in {pre.seqL2, pre.seqL2 + 1} THEN {} ELSE {"SeqL2Step"})
+  \cup (LET ann == IF cur.ok /\ cur.e.type = "InitiateTokenWithdrawal" THEN << cur.resp.ev >>
+                    ELSE IF cur.ok /\ cur.e.type = "FinalizeTokenDeposit" /\ cur.resp.result = "SUCCESS"
+                         THEN cur.resp.hookWds \o (IF cur.resp.wd.some THEN << cur.resp.wd >> ELSE << >>)
+                    ELSE << >>
+        IN IF cur.state.seqL2 = pre.seqL2 + Len(ann) /\ (\A j \in 1..Len(ann) : ann[j].seq = pre.seqL2 + j - 1) THEN {} ELSE {"SeqL2Step"})   \* gap-free: one sequence per announced withdrawal
   \cup (IF \A d \in DOMAIN pre.pairs : Has(cur.state.pairs, d) /\ cur.state.pairs[d] = pre.pairs[d] THEN {} ELSE {"PairImmutable"})
   \cup (IF ~cur.ok /\ cur.state # pre THEN {"NoEffectOnReject"} ELSE {})
 
